@@ -99,12 +99,21 @@ def finish(prop, tier, seed, spec, t0, results, outdir):
     if prop == "C19":
         # dynamic half: the same histories against the module build and the component build
         from . import model
-        dres, ddir, dviol, dcov = model.run_c19_dynamic(tier, seed)
-        results = results + dres
-        extra_viol += dviol
-        extra_cov.update(dcov)
-        extra_fp = [ddir]
         binaries = {"buildsim": BIN}
+        try:
+            dres, ddir, dviol, dcov = model.run_c19_dynamic(tier, seed)
+            results = results + dres
+            extra_viol += dviol
+            extra_cov.update(dcov)
+            extra_fp = [ddir]
+        except M.HarnessError as e:
+            # the dynamic half could not run (e.g. the component build does not link or its binary
+            # crashes): a harness error -- unless the text half already holds violations, which are
+            # reported; the failure of the dynamic half is then mentioned as a diagnostic
+            if not any(r.get("violations") for r in results):
+                raise
+            M.log("[warn] C19 dynamic half did not complete: %s" % str(e).splitlines()[0])
+            extra_cov["dynamic_half"] = {"status": "did not complete", "reason": str(e)[:400]}
     return M.finish(prop, tier, seed, spec, results, outdir, binaries, t0, extra_cov=extra_cov, extra_violations=extra_viol,
                     extra_fp_dirs=extra_fp)
 
